@@ -2,7 +2,7 @@
      monomial_derivative(s)           polynomial/basis.hpp:26-66
      cspline_eval_vs (loop over j)    spline/detail/cumulative_spline_impl.hpp:26-66
      cspline_eval_gs                  spline/detail/cumulative_spline_impl.hpp:138-149
-     BSpline::operator() tail         spline/detail/bspline_impl.hpp:72-91
+     BSpline::operator() tail         spline/detail/bspline_impl.hpp:73-92
    over an ABSTRACT group (Section variables), scalars in Q, basis matrix as list of rows.
    No proofs in this file. *)
 From Coq Require Import ZArith QArith Qround Bool List.
@@ -123,17 +123,17 @@ Section AbstractGroup.
     | g0 :: _ => let '(g, w, a) := eval_vs cs (diffs gs) in (op g0 g, w, a)
     end.
 
-  (* m_ctrl_pts | drop(istar) | take(K+1)        bspline_impl.hpp:78-81 *)
+  (* m_ctrl_pts | drop(istar) | take(K+1)        bspline_impl.hpp:79-82 *)
   Definition window (K : nat) (ctrl : list G) (i : nat) : list G := firstn (S K) (skipn i ctrl).
 
   Definition window_eval (M : list (list Q)) (K : nat) (ctrl : list G) (i : nat) (u : Q) : G * T * T :=
     eval_gs (coefs M K u) (window K ctrl i).
 
-  (* BSpline::operator()(t, vel, acc)     bspline_impl.hpp:55-91 *)
-  Definition bs_eval (fixed : bool) (M : list (list Q)) (K : nat) (ctrl : list G) (t0 dt t : Q) : G * T * T :=
-    let '(i, u) := bs_select fixed (Z.of_nat K) (Z.of_nat (length ctrl)) t0 dt t in
+  (* BSpline::operator()(t, vel, acc)     bspline_impl.hpp:55-93 *)
+  Definition bs_eval (M : list (list Q)) (K : nat) (ctrl : list G) (t0 dt t : Q) : G * T * T :=
+    let '(i, u) := bs_select (Z.of_nat K) (Z.of_nat (length ctrl)) t0 dt t in
     let '(g, w, a) := window_eval M K ctrl (Z.to_nat i) u in
-    (g, smul (/ dt) w, smul (/ (dt * dt)) a).                                (* l.88-89 *)
+    (g, smul (/ dt) w, smul (/ (dt * dt)) a).                                (* l.89-90 *)
 
   Definition outputs_upto (r : nat) (s : G * T * T) : G * option T * option T :=
     let '(g, w, a) := s in
@@ -143,6 +143,6 @@ End AbstractGroup.
 (* ---------- instance used by the correspondence run: one-dimensional vector space over Q ---------- *)
 Definition q_add (a b : Q) : Q := Qred (a + b).
 Definition q_smul (a b : Q) : Q := Qred (a * b).
-Definition bs_eval_Q1 (fixed : bool) (M : list (list Q)) (K : nat) (ctrl : list Q) (t0 dt t : Q) : Q * Q * Q :=
+Definition bs_eval_Q1 (M : list (list Q)) (K : nat) (ctrl : list Q) (t0 dt t : Q) : Q * Q * Q :=
   bs_eval Q Q q_add 0 (fun a => Qred (- a)) (fun v => v) (fun g => g) (fun _ w => w) (fun _ _ => 0)
-          q_add 0 q_smul fixed M K ctrl t0 dt t.
+          q_add 0 q_smul M K ctrl t0 dt t.
